@@ -121,6 +121,12 @@ def shift_model(m, k):
             r["bookings"] = [(s + d, mins) for s, mins in r["bookings"]]
     if "gleaves" in m2:
         m2["gleaves"] = [(typ, s + d, None if e is None else e + d) for typ, s, e in m2["gleaves"]]
+    for g in m2.get("groups", []):
+        for key in ("leaves", "vacs"):
+            if key in g:
+                g[key] = [(s + d, None if e is None else e + d) for s, e in g[key]]
+    if "shift_leaves" in m2:
+        m2["shift_leaves"] = {sid: [(s + d, None if e is None else e + d) for s, e in lst] for sid, lst in m2["shift_leaves"].items()}
     if "vacations" in m2:
         m2["vacations"] = [(s + d, None if e is None else e + d) for s, e in m2["vacations"]]
     for t in m2["tasks"]:
@@ -227,6 +233,8 @@ def rename_model(rnd, m):
         if g.get("parent"):
             g["parent"] = rmap[g["parent"]]
     m2["shifts"] = {smap[k]: v for k, v in m2["shifts"].items()}
+    if "shift_leaves" in m2:
+        m2["shift_leaves"] = {smap[k]: v for k, v in m2["shift_leaves"].items()}
     for t in m2["tasks"]:
         if "alloc" in t:
             t["alloc"] = [rmap[x] for x in t["alloc"]]
@@ -245,7 +253,12 @@ def shift_inline_swap(rnd, m):
     n = 0
     for r in m2["resources"]:
         if "shift" in r and rnd.random() < 0.6:
-            r["inline"] = m2["shifts"][r.pop("shift")]
+            sid = r.pop("shift")
+            r["inline"] = m2["shifts"][sid]
+            # absences declared on the shift travel with it: as leaves of the resource they mean the same
+            r["leaves"] = list(r.get("leaves", [])) + list(m2.get("shift_leaves", {}).get(sid, []))
+            if not r["leaves"]:
+                del r["leaves"]
             n += 1
         elif "inline" in r and rnd.random() < 0.6:
             sid = "xs%d" % len(m2["shifts"])
